@@ -9,7 +9,8 @@ namespace Goat.Scope
 /-! ### what no step can undo -/
 
 /-- errors are never removed, a done context stays done, an allocated scope keeps its place in the
-tree and its context, a finished scope stays finished -/
+tree, its context and its sign-on; once `Wait()` has returned the branch is fixed; once a scope has
+signed off no listener of its `Close` runs any more -/
 structure Mono (st st' : State) : Prop where
   nScopes : st.nScopes ≤ st'.nScopes
   errors : ∀ c, (st.ctx c).errors ≤ (st'.ctx c).errors
@@ -17,9 +18,15 @@ structure Mono (st st' : State) : Prop where
   ctx : ∀ s, s < st.nScopes → (st'.scp s).ctx = (st.scp s).ctx
   parent : ∀ s, s < st.nScopes → (st'.scp s).parent = (st.scp s).parent
   iso : ∀ s, s < st.nScopes → (st'.scp s).iso = (st.scp s).iso
+  reg : ∀ s, s < st.nScopes → (st'.scp s).registered = (st.scp s).registered ∧ (st'.scp s).late = (st.scp s).late
+  waited : ∀ s, s < st.nScopes → (st.scp s).phase.waited = true →
+    (st'.scp s).phase.waited = true ∧ (st'.scp s).rolled = (st.scp s).rolled
+  frozen : ∀ s, s < st.nScopes → (st.scp s).phase.live = false →
+    (st'.scp s).phase.live = false ∧ (st'.scp s).lfail = (st.scp s).lfail ∧ (st'.scp s).park = (st.scp s).park
 
 theorem Mono.refl (st : State) : Mono st st :=
-  ⟨Nat.le_refl _, fun _ => Nat.le_refl _, fun _ h => h, fun _ _ => rfl, fun _ _ => rfl, fun _ _ => rfl⟩
+  ⟨Nat.le_refl _, fun _ => Nat.le_refl _, fun _ h => h, fun _ _ => rfl, fun _ _ => rfl, fun _ _ => rfl,
+   fun _ _ => ⟨rfl, rfl⟩, fun _ _ h => ⟨h, rfl⟩, fun _ _ h => ⟨h, rfl, rfl⟩⟩
 
 theorem Mono.trans {a b c : State} (h1 : Mono a b) (h2 : Mono b c) : Mono a c where
   nScopes := Nat.le_trans h1.nScopes h2.nScopes
@@ -28,36 +35,105 @@ theorem Mono.trans {a b c : State} (h1 : Mono a b) (h2 : Mono b c) : Mono a c wh
   ctx := fun s hs => (h2.ctx s (Nat.lt_of_lt_of_le hs h1.nScopes)).trans (h1.ctx s hs)
   parent := fun s hs => (h2.parent s (Nat.lt_of_lt_of_le hs h1.nScopes)).trans (h1.parent s hs)
   iso := fun s hs => (h2.iso s (Nat.lt_of_lt_of_le hs h1.nScopes)).trans (h1.iso s hs)
+  reg := fun s hs =>
+    have a1 := h1.reg s hs
+    have a2 := h2.reg s (Nat.lt_of_lt_of_le hs h1.nScopes)
+    ⟨a2.1.trans a1.1, a2.2.trans a1.2⟩
+  waited := fun s hs hw =>
+    have a1 := h1.waited s hs hw
+    have a2 := h2.waited s (Nat.lt_of_lt_of_le hs h1.nScopes) a1.1
+    ⟨a2.1, a2.2.trans a1.2⟩
+  frozen := fun s hs hl =>
+    have a1 := h1.frozen s hs hl
+    have a2 := h2.frozen s (Nat.lt_of_lt_of_le hs h1.nScopes) a1.1
+    ⟨a2.1, a2.2.1.trans a1.2.1, a2.2.2.trans a1.2.2⟩
+
+/-- nothing but contexts (growing) changes -/
+theorem mono_of_scp_eq {st st' : State} (hn : st'.nScopes = st.nScopes) (hs : st'.scp = st.scp)
+    (he : ∀ c, (st.ctx c).errors ≤ (st'.ctx c).errors)
+    (hd : ∀ c, (st.ctx c).done = true → (st'.ctx c).done = true) : Mono st st' :=
+  ⟨Nat.le_of_eq hn.symm, he, hd, fun _ _ => by rw [hs], fun _ _ => by rw [hs], fun _ _ => by rw [hs],
+   fun _ _ => by rw [hs]; exact ⟨rfl, rfl⟩, fun _ _ h => by rw [hs]; exact ⟨h, rfl⟩,
+   fun _ _ h => by rw [hs]; exact ⟨h, rfl, rfl⟩⟩
 
 theorem EvStep.mono {st st' : State} {s : Nat} (e : EvStep st st' s) : Mono st st' :=
-  ⟨Nat.le_of_eq e.nScopes.symm, e.ctx_errors, e.ctx_done, fun _ _ => by rw [e.scp], fun _ _ => by rw [e.scp],
-   fun _ _ => by rw [e.scp]⟩
+  mono_of_scp_eq e.nScopes e.scp e.ctx_errors e.ctx_done
 
-/-- a change of one scope's record that keeps parent, context and the isolation flag -/
+/-- a change of one scope's record that keeps its tree position and moves its `Close` forward -/
 theorem mono_modScp (st : State) (s : Nat) (f : Scp → Scp)
     (hpar : (f (st.scp s)).parent = (st.scp s).parent) (hctx : (f (st.scp s)).ctx = (st.scp s).ctx)
-    (hiso : (f (st.scp s)).iso = (st.scp s).iso) : Mono st (st.modScp s f) := by
-  refine ⟨Nat.le_refl _, fun _ => Nat.le_refl _, fun _ h => h, ?_, ?_, ?_⟩ <;>
-  · intro t _
+    (hiso : (f (st.scp s)).iso = (st.scp s).iso)
+    (hreg : (f (st.scp s)).registered = (st.scp s).registered) (hlate : (f (st.scp s)).late = (st.scp s).late)
+    (hw : (st.scp s).phase.waited = true →
+      (f (st.scp s)).phase.waited = true ∧ (f (st.scp s)).rolled = (st.scp s).rolled)
+    (hl : (st.scp s).phase.live = false →
+      (f (st.scp s)).phase.live = false ∧ (f (st.scp s)).lfail = (st.scp s).lfail ∧
+        (f (st.scp s)).park = (st.scp s).park) : Mono st (st.modScp s f) := by
+  refine ⟨Nat.le_refl _, fun _ => Nat.le_refl _, fun _ h => h, ?_, ?_, ?_, ?_, ?_, ?_⟩
+  all_goals
+    intro t _
     rw [modScp_scp]; split
-    · subst_vars; assumption
-    · rfl
+    · subst_vars; first | assumption | exact ⟨hreg, hlate⟩
+    · first | rfl | exact ⟨rfl, rfl⟩ | exact fun h => ⟨h, rfl⟩ | exact fun h => ⟨h, rfl, rfl⟩
 
-theorem mono_signOff (st2 : State) (s : Nat) (rb : Bool) : Mono st2 (st2.signOff s rb) := by
-  unfold State.signOff
-  simp only []
+/-- … for changes of fields no clause of `Mono` looks at -/
+theorem mono_modScp_plain (st : State) (s : Nat) (f : Scp → Scp)
+    (hk : KeyEq (f (st.scp s)) (st.scp s)) (hiso : (f (st.scp s)).iso = (st.scp s).iso) :
+    Mono st (st.modScp s f) :=
+  mono_modScp st s f hk.parent hk.ctx hiso hk.registered hk.late
+    (fun h => by rw [hk.phase, hk.rolled]; exact ⟨h, rfl⟩)
+    (fun h => by rw [hk.phase, hk.lfail, hk.park]; exact ⟨h, rfl, rfl⟩)
+
+theorem TrigStep.mono {st st' : State} {s : Nat} {ev : Ev}
+    (hev : evOf (st.scp s).phase (st.scp s).rolled = some ev) (ts : TrigStep st s st') : Mono st st' := by
+  have hfacts := evOf_facts hev
+  have hwn : (st.scp s).phase.waited = true → (st.scp s).phase.next.waited = true := by
+    revert hev; cases (st.scp s).phase <;> cases (st.scp s).rolled <;> simp [evOf, Phase.waited, Phase.next]
+  cases ts with
+  | parked st1 p e =>
+    refine e.mono.trans (mono_modScp st1 s _ rfl rfl rfl rfl rfl (fun h => ⟨h, rfl⟩) ?_)
+    intro h; rw [e.scp, hfacts.1] at h; cases h
+  | ended st1 failed e _ =>
+    refine e.mono.trans (mono_modScp st1 s _ rfl rfl rfl rfl rfl ?_ ?_)
+    · intro h; rw [e.scp] at h ⊢; exact ⟨hwn h, rfl⟩
+    · intro h; rw [e.scp, hfacts.1] at h; cases h
+
+theorem mono_signOffParent (st : State) (s : Nat) : Mono st (st.signOffParent s) := by
+  unfold State.signOffParent
   split
-  · exact (mono_modScp st2 _ _ rfl rfl rfl).trans (mono_modScp _ _ _ rfl rfl rfl)
-  · exact mono_modScp _ _ _ rfl rfl rfl
+  · exact mono_modScp_plain st _ _ ⟨rfl, rfl, rfl, rfl, rfl, rfl, rfl, rfl⟩ rfl
+  · exact Mono.refl _
 
-theorem newRoot_scp_old (st : State) {t : Nat} (ht : t < st.nScopes) : st.newRoot.scp t = st.scp t := by
-  show upd st.scp st.nScopes _ t = _
-  rw [upd_ne _ _ (by omega)]
+theorem mono_microCase {st st' : State} {s : Nat} {o : Outcome} (h : Inv st) (m : MicroCase st s st' o) :
+    Mono st st' := by
+  cases m with
+  | resume p ev _ _ hev => exact (trigStep_resumeTrigger st s ev p).mono hev
+  | start ev _ hev => exact (trigStep_startTrigger st s ev).mono hev
+  | pick _ hph _ =>
+    exact mono_modScp st s _ rfl rfl rfl rfl rfl (fun hw => by rw [hph] at hw; cases hw)
+      (fun hl => by rw [hph] at hl; cases hl)
+  | signOff hpk hph =>
+    have hself : (st.signOffParent s).scp s = st.scp s :=
+      signOffParent_scp_self st s (fun p hp e => by have := h.s.parentLt s p hp; omega)
+    refine (mono_signOffParent st s).trans (mono_modScp _ s _ rfl rfl rfl rfl rfl ?_ ?_)
+    · intro hw; rw [hself]; exact ⟨rfl, rfl⟩
+    · intro hl; rw [hself, hph] at hl; cases hl
+  | ret hpk hph =>
+    exact mono_modScp st s _ rfl rfl rfl rfl rfl (fun _ => ⟨rfl, rfl⟩) (fun _ => ⟨rfl, rfl, rfl⟩)
 
-theorem newRoot_ctx (st : State) (c : Nat) : st.newRoot.ctx c = if c = st.nCtxs then {} else st.ctx c := rfl
+theorem mono_micro {st st' : State} {s : Nat} {o : Outcome} (h : Inv st) (hm : micro st s = some (st', o)) :
+    Mono st st' := mono_microCase h (micro_cases hm)
+
+theorem mono_runSteps {st : State} {s : Nat} (h : Inv st) (hs : s < st.nScopes) (n : Nat) :
+    Mono st (runSteps micro s n st).1 :=
+  (runSteps_induct (P := fun x => Inv x ∧ s < x.nScopes ∧ Mono st x)
+    (fun a b o ha hm => ⟨inv_micro ha.1 ha.2.1 hm,
+      by rw [microCase_nScopes (micro_cases hm)]; exact ha.2.1, ha.2.2.trans (mono_micro ha.1 hm)⟩)
+    n st ⟨h, hs, Mono.refl st⟩).2.2
 
 theorem mono_newRoot {st : State} (h : InvS st) : Mono st st.newRoot := by
-  refine ⟨Nat.le_succ _, ?_, ?_, ?_, ?_, ?_⟩
+  have hold : ∀ t, t < st.nScopes → st.newRoot.scp t = st.scp t := fun t ht => newRoot_scp_old st (by omega)
+  refine ⟨Nat.le_succ _, ?_, ?_, ?_, ?_, ?_, ?_, ?_, ?_⟩
   · intro c
     rw [newRoot_ctx]; split
     · subst_vars; rw [h.freshCtx _ (Nat.le_refl _)]; exact Nat.le_refl _
@@ -68,37 +144,11 @@ theorem mono_newRoot {st : State} (h : InvS st) : Mono st st.newRoot := by
     · exact id
   all_goals
     intro t ht
-    rw [newRoot_scp_old st ht]
-
-/-- the record of an already allocated scope after `newChild`: only the parent's counter and ghost
-child list change -/
-theorem newChild_scp_old (st : State) (p : Nat) (iso : Bool) {t : Nat} (ht : t < st.nScopes) :
-    (st.newChild p iso).scp t =
-      if t = p ∧ (!(st.isDone p)) = true then
-        { st.scp p with wg := (st.scp p).wg + 1, kids := st.nScopes :: (st.scp p).kids }
-      else st.scp t := by
-  have hne : t ≠ st.nScopes := by omega
-  unfold State.newChild
-  by_cases hr : (!(st.isDone p)) = true <;> cases iso <;>
-    simp only [hr, if_true, if_false, and_true, and_false, Bool.false_eq_true] <;>
-    show upd _ st.nScopes _ t = _ <;> rw [upd_ne _ _ hne]
-  · exact modScp_scp st p t _
-  · exact modScp_scp st p t _
-
-theorem newChild_ctx (st : State) (p : Nat) (iso : Bool) (c : Nat) :
-    (st.newChild p iso).ctx c =
-      if iso = true ∧ c = st.nCtxs then { parent := some (st.scp p).ctx, watch := true } else st.ctx c := by
-  unfold State.newChild
-  by_cases hr : (!(st.isDone p)) = true <;> cases iso <;>
-    simp only [hr, if_true, if_false, true_and, false_and, Bool.false_eq_true] <;>
-    first | rfl | (show upd _ st.nCtxs _ c = _; rw [upd_apply]; rfl)
-
-theorem newChild_nScopes (st : State) (p : Nat) (iso : Bool) : (st.newChild p iso).nScopes = st.nScopes + 1 := by
-  unfold State.newChild
-  by_cases hr : (!(st.isDone p)) = true <;> cases iso <;> simp only [hr, if_true, if_false, Bool.false_eq_true] <;> rfl
+    rw [hold t ht]
+    try (first | rfl | exact ⟨rfl, rfl⟩ | exact fun h => ⟨h, rfl⟩ | exact fun h => ⟨h, rfl, rfl⟩)
 
 theorem mono_newChild {st : State} (h : InvS st) (p : Nat) (iso : Bool) : Mono st (st.newChild p iso) := by
-  refine ⟨by rw [newChild_nScopes]; exact Nat.le_succ _, ?_, ?_, ?_, ?_, ?_⟩
+  refine ⟨by rw [newChild_nScopes]; exact Nat.le_succ _, ?_, ?_, ?_, ?_, ?_, ?_, ?_, ?_⟩
   · intro c
     rw [newChild_ctx]; split
     · rename_i hc; rw [hc.2, h.freshCtx _ (Nat.le_refl _)]; exact Nat.zero_le _
@@ -109,50 +159,78 @@ theorem mono_newChild {st : State} (h : InvS st) (p : Nat) (iso : Bool) : Mono s
     · exact id
   all_goals
     intro t ht
-    rw [newChild_scp_old st p iso ht]; split
+    rw [newChild_scp_old st p iso (show t ≠ st.nScopes by omega)]; split
     · rename_i hc; rw [hc.1]
-    · rfl
+      try (first | rfl | exact ⟨rfl, rfl⟩ | exact fun h => ⟨h, rfl⟩ | exact fun h => ⟨h, rfl, rfl⟩)
+    · try (first | rfl | exact ⟨rfl, rfl⟩ | exact fun h => ⟨h, rfl⟩ | exact fun h => ⟨h, rfl, rfl⟩)
+
+theorem mono_addListener (st : State) (s : Nat) (ev : Ev) (fails : Bool) (gate : Option Nat) :
+    Mono st (st.addListener s ev fails gate) := by
+  have m := mono_modScp_plain st s
+    (fun x => { x with listeners := x.listeners ++ [⟨st.nListeners, ev, fails, gate⟩] })
+    ⟨rfl, rfl, rfl, rfl, rfl, rfl, rfl, rfl⟩ rfl
+  exact ⟨m.nScopes, m.errors, m.done, m.ctx, m.parent, m.iso, m.reg, m.waited, m.frozen⟩
+
+theorem mono_modCtx (st : State) (c : Nat) (f : Ctx → Ctx) (he : (st.ctx c).errors ≤ (f (st.ctx c)).errors)
+    (hd : (st.ctx c).done = true → (f (st.ctx c)).done = true) : Mono st (st.modCtx c f) :=
+  mono_of_scp_eq rfl rfl
+    (fun d => by rw [modCtx_ctx]; split
+                 · subst_vars; exact he
+                 · exact Nat.le_refl _)
+    (fun d => by rw [modCtx_ctx]; split
+                 · subst_vars; exact hd
+                 · exact id)
 
 theorem mono_exec {st st' : State} {a : Act} {o : Outcome} (h : Inv st) (he : exec st a = some (st', o)) :
     Mono st st' := by
   cases a with
-  | new => simp only [exec, Option.some.injEq, Prod.mk.injEq] at he; rw [← he.1]; exact mono_newRoot h.s
+  | new => simp only [exec, execWith, Option.some.injEq, Prod.mk.injEq] at he; rw [← he.1]; exact mono_newRoot h.s
   | child p iso =>
-    simp only [exec] at he
+    simp only [exec, execWith] at he
     split at he
     · simp only [Option.some.injEq, Prod.mk.injEq] at he; rw [← he.1]; exact mono_newChild h.s p iso
     · cases he
   | on s ev fails =>
-    simp only [exec] at he
+    simp only [exec, execWith] at he
+    split at he
+    · split at he
+      · simp only [Option.some.injEq, Prod.mk.injEq] at he; rw [← he.1]; exact Mono.refl _
+      · split at he
+        · cases he
+        · simp only [Option.some.injEq, Prod.mk.injEq] at he; rw [← he.1]; exact mono_addListener st s _ _ _
+    · cases he
+  | onGated s ev fails g =>
+    simp only [exec, execWith] at he
+    split at he
+    · split at he
+      · simp only [Option.some.injEq, Prod.mk.injEq] at he; rw [← he.1]; exact Mono.refl _
+      · split at he
+        · cases he
+        · simp only [Option.some.injEq, Prod.mk.injEq] at he; rw [← he.1]; exact mono_addListener st s _ _ _
+    · cases he
+  | addTasks s n =>
+    simp only [exec, execWith] at he
     split at he
     · split at he
       · simp only [Option.some.injEq, Prod.mk.injEq] at he; rw [← he.1]; exact Mono.refl _
       · simp only [Option.some.injEq, Prod.mk.injEq] at he; rw [← he.1]
-        have m := mono_modScp st s (fun x => { x with listeners := x.listeners ++ [⟨st.nListeners, ev, fails⟩] })
-          rfl rfl rfl
-        exact ⟨m.nScopes, m.errors, m.done, m.ctx, m.parent, m.iso⟩
-    · cases he
-  | addTasks s n =>
-    simp only [exec] at he
-    split at he
-    · split at he
-      · simp only [Option.some.injEq, Prod.mk.injEq] at he; rw [← he.1]; exact Mono.refl _
-      · simp only [Option.some.injEq, Prod.mk.injEq] at he; rw [← he.1]; exact mono_modScp st s _ rfl rfl rfl
+        exact mono_modScp_plain st s _ ⟨rfl, rfl, rfl, rfl, rfl, rfl, rfl, rfl⟩ rfl
     · cases he
   | doneTask s =>
-    simp only [exec] at he
+    simp only [exec, execWith] at he
     split at he
-    · simp only [Option.some.injEq, Prod.mk.injEq] at he; rw [← he.1]; exact mono_modScp st s _ rfl rfl rfl
+    · simp only [Option.some.injEq, Prod.mk.injEq] at he; rw [← he.1]
+      exact mono_modScp_plain st s _ ⟨rfl, rfl, rfl, rfl, rfl, rfl, rfl, rfl⟩ rfl
     · cases he
   | appErr s =>
-    simp only [exec] at he
+    simp only [exec, execWith] at he
     split at he
     · split at he
       · simp only [Option.some.injEq, Prod.mk.injEq] at he; rw [← he.1]; exact Mono.refl _
       · simp only [Option.some.injEq, Prod.mk.injEq] at he; rw [← he.1]; exact (evStep_appendError st s).mono
     · cases he
   | kill s =>
-    simp only [exec] at he
+    simp only [exec, execWith] at he
     split at he
     · split at he
       · simp only [Option.some.injEq, Prod.mk.injEq] at he; rw [← he.1]; exact Mono.refl _
@@ -160,7 +238,7 @@ theorem mono_exec {st st' : State} {a : Act} {o : Outcome} (h : Inv st) (he : ex
         exact ((evStep_addError st s).trans (evStep_fire _ s .kill none)).mono
     · cases he
   | stop s =>
-    simp only [exec] at he
+    simp only [exec, execWith] at he
     split at he
     · split at he
       · simp only [Option.some.injEq, Prod.mk.injEq] at he; rw [← he.1]; exact Mono.refl _
@@ -168,44 +246,49 @@ theorem mono_exec {st st' : State} {a : Act} {o : Outcome} (h : Inv st) (he : ex
         exact ((evStep_setDone st s).trans (evStep_fire _ s .stop none)).mono
     · cases he
   | close s =>
-    simp only [exec] at he
+    simp only [exec, execWith] at he
     split at he
-    · split at he
+    · rename_i hs
+      split at he
       · simp only [Option.some.injEq, Prod.mk.injEq] at he; rw [← he.1]; exact Mono.refl _
-      · simp only [Option.some.injEq, Prod.mk.injEq] at he; rw [← he.1]
-        exact (mono_modScp st s _ rfl rfl rfl).trans (evStep_fire _ s .beforeClose (some s)).mono
+      · rename_i hph
+        have hph' : (st.scp s).phase = .opened := by simpa using hph
+        simp only [Option.some.injEq, Prod.mk.injEq] at he; rw [← he.1]
+        unfold State.beginClose
+        refine (mono_modScp st s (fun x => { x with phase := .begun }) rfl rfl rfl rfl rfl
+          (fun hw => by rw [hph'] at hw; cases hw)
+          (fun hl => by rw [hph'] at hl; cases hl)).trans ?_
+        exact (trigStep_startTrigger _ s .beforeClose).mono (ev := .beforeClose) (by rw [modScp_scp_same]; rfl)
     · cases he
   | finish s =>
-    simp only [exec] at he
+    simp only [exec, execWith] at he
     split at he
-    · simp only [Option.some.injEq, Prod.mk.injEq] at he; rw [← he.1, finishClose_eq]
-      exact (evStep_closeEvents st s).mono.trans (mono_signOff _ s _)
+    · rename_i hg
+      simp only [Option.some.injEq] at he
+      have := mono_runSteps h hg.1 8
+      rw [he] at this; exact this
     · cases he
+  | step s =>
+    simp only [exec, execWith] at he
+    split at he
+    · exact mono_micro h he
+    · cases he
+  | release g =>
+    simp only [exec, execWith, Option.some.injEq, Prod.mk.injEq] at he; rw [← he.1]
+    exact mono_of_scp_eq rfl rfl (fun _ => Nat.le_refl _) (fun _ hd => hd)
   | propagate c asKill =>
-    simp only [exec] at he
+    simp only [exec, execWith] at he
     split at he
     · split at he
       · simp only [Option.some.injEq, Prod.mk.injEq] at he; rw [← he.1]
-        refine ⟨Nat.le_refl _, ?_, ?_, fun _ _ => rfl, fun _ _ => rfl, fun _ _ => rfl⟩
-        · intro d; rw [modCtx_ctx]; split
-          · subst_vars; cases asKill <;> simp
-          · exact Nat.le_refl _
-        · intro d; rw [modCtx_ctx]; split
-          · intro _; rfl
-          · exact id
+        exact mono_modCtx st c _ (by cases asKill <;> simp) (fun _ => rfl)
       · cases he
     · cases he
   | watcherExit c =>
-    simp only [exec] at he
+    simp only [exec, execWith] at he
     split at he
     · simp only [Option.some.injEq, Prod.mk.injEq] at he; rw [← he.1]
-      refine ⟨Nat.le_refl _, ?_, ?_, fun _ _ => rfl, fun _ _ => rfl, fun _ _ => rfl⟩
-      · intro d; rw [modCtx_ctx]; split
-        · subst_vars; exact Nat.le_refl _
-        · exact Nat.le_refl _
-      · intro d; rw [modCtx_ctx]; split
-        · subst_vars; exact id
-        · exact id
+      exact mono_modCtx st c _ (Nat.le_refl _) id
     · cases he
 
 theorem mono_next {st : State} (h : Inv st) (a : Act) : Mono st (next st a) := by
@@ -218,7 +301,6 @@ theorem mono_runFrom {st : State} (h : Inv st) (sched : List Act) : Mono st (run
   induction sched generalizing st with
   | nil => exact Mono.refl _
   | cons a rest ih => exact (mono_next h a).trans (ih (inv_next h a))
-
 
 /-! ### shared links -/
 
@@ -235,24 +317,17 @@ theorem SharedLink.ctx_eq {st : State} (h : InvS st) {c p : Nat} (l : SharedLink
   | refl s => rfl
   | child hp hi _ ih => exact (h.sharedCtx _ _ hp hi).trans ih
 
-/-! ### the footprint of one scope's calls -/
+/-! ### inversion of `exec` for the calls of one scope -/
 
-/-- the calls through which a scope can fail or close -/
+/-- the calls through which a scope can fail or close, and the steps of its closing goroutine -/
 def Act.onScope (a : Act) (c : Nat) : Prop :=
-  a = .appErr c ∨ a = .kill c ∨ a = .stop c ∨ a = .close c ∨ a = .finish c
-
-theorem signOff_ctx (st2 : State) (s : Nat) (rb : Bool) : (st2.signOff s rb).ctx = st2.ctx := by
-  unfold State.signOff
-  simp only []
-  split <;> rfl
-
-/-! inversion of `exec` for the calls of one scope -/
+  a = .appErr c ∨ a = .kill c ∨ a = .stop c ∨ a = .close c ∨ a = .finish c ∨ a = .step c
 
 theorem exec_appErr_inv {st st' : State} {o : Outcome} {s : Nat} (he : exec st (.appErr s) = some (st', o)) :
     s < st.nScopes ∧
       ((st' = st ∧ o = .panic ∧ (st.scp s).phase ≠ .opened) ∨
        (st' = st.appendError s ∧ o = .ok ∧ (st.scp s).phase = .opened)) := by
-  simp only [exec] at he
+  simp only [exec, execWith] at he
   split at he
   · rename_i hs
     refine ⟨hs, ?_⟩
@@ -269,7 +344,7 @@ theorem exec_kill_inv {st st' : State} {o : Outcome} {s : Nat} (he : exec st (.k
     s < st.nScopes ∧
       ((st' = st ∧ o = .panic ∧ (st.scp s).phase ≠ .opened) ∨
        (st' = (st.addError s).fire s .kill none ∧ o = .ok ∧ (st.scp s).phase = .opened)) := by
-  simp only [exec] at he
+  simp only [exec, execWith] at he
   split at he
   · rename_i hs
     refine ⟨hs, ?_⟩
@@ -286,7 +361,7 @@ theorem exec_stop_inv {st st' : State} {o : Outcome} {s : Nat} (he : exec st (.s
     s < st.nScopes ∧
       ((st' = st ∧ o = .panic ∧ (st.scp s).phase ≠ .opened) ∨
        (st' = (st.setDone s).fire s .stop none ∧ o = .ok ∧ (st.scp s).phase = .opened)) := by
-  simp only [exec] at he
+  simp only [exec, execWith] at he
   split at he
   · rename_i hs
     refine ⟨hs, ?_⟩
@@ -303,7 +378,7 @@ theorem exec_close_inv {st st' : State} {o : Outcome} {s : Nat} (he : exec st (.
     s < st.nScopes ∧
       ((st' = st ∧ o = .panic ∧ (st.scp s).phase ≠ .opened) ∨
        (st' = st.beginClose s ∧ o = .ok ∧ (st.scp s).phase = .opened)) := by
-  simp only [exec] at he
+  simp only [exec, execWith] at he
   split at he
   · rename_i hs
     refine ⟨hs, ?_⟩
@@ -316,25 +391,137 @@ theorem exec_close_inv {st st' : State} {o : Outcome} {s : Nat} (he : exec st (.
       exact Or.inr ⟨he.1.symm, he.2.symm, by simpa using hp⟩
   · cases he
 
-theorem exec_finish_inv {st st' : State} {o : Outcome} {s : Nat} (he : exec st (.finish s) = some (st', o)) :
-    s < st.nScopes ∧ (st.scp s).phase = .closing ∧ (st.scp s).wg = 0 ∧
-      st' = st.finishClose s ∧ o = .closed (st'.hasErr s) := by
-  simp only [exec] at he
+theorem exec_step_inv {st : State} {r : State × Outcome} {s : Nat} (he : exec st (.step s) = some r) :
+    s < st.nScopes ∧ micro st s = some r := by
+  simp only [exec, execWith] at he
   split at he
-  · rename_i hg
-    simp only [Option.some.injEq, Prod.mk.injEq] at he
-    exact ⟨hg.1, hg.2.1, hg.2.2, he.1.symm, by rw [← he.2, ← he.1]⟩
+  · rename_i hs; exact ⟨hs, he⟩
   · cases he
 
-theorem evStep_beginClose (st : State) (s : Nat) :
-    EvStep (st.modScp s fun y => { y with phase := .closing }) (st.beginClose s) s :=
-  evStep_fire _ s .beforeClose (some s)
+/-- the coarse act: the wait is over (`pick`), then the goroutine runs on -/
+theorem exec_finish_inv {st : State} {r : State × Outcome} {s : Nat} (he : exec st (.finish s) = some r) :
+    s < st.nScopes ∧ (st.scp s).phase = .closing ∧ (st.scp s).park = none ∧ (st.scp s).wg = 0 ∧
+      r = runSteps micro s 7 (st.pick s) := by
+  simp only [exec, execWith] at he
+  split at he
+  · rename_i hg
+    obtain ⟨hs, hph, hpk, hwg⟩ := hg
+    have hpk' : (st.scp s).park = none := by
+      cases hp : (st.scp s).park with
+      | none => rfl
+      | some p => rw [hp] at hpk; cases hpk
+    simp only [Option.some.injEq] at he
+    refine ⟨hs, hph, hpk', hwg, ?_⟩
+    rw [← he]
+    have hm : micro st s = some (st.pick s, .ok) := by
+      unfold micro
+      simp only [hpk', hph, evOf, hwg, if_true]
+      rfl
+    show runSteps micro s (7 + 1) st = _
+    rw [runSteps, hm]
+  · cases he
 
-/-- a call on scope `c` touches no context but the one of `c` -/
-theorem exec_footprint {st st' : State} {a : Act} {o : Outcome} {c : Nat} (ha : a.onScope c)
+/-- the first step of a closing goroutine that waits with an empty wait group is `pick` -/
+theorem micro_closing {st : State} {r : State × Outcome} {s : Nat} (hph : (st.scp s).phase = .closing)
+    (hpk : (st.scp s).park = none) (hm : micro st s = some r) :
+    (st.scp s).wg = 0 ∧ r = (st.pick s, .ok) := by
+  unfold micro at hm
+  simp only [hpk, hph, evOf] at hm
+  split at hm
+  · rename_i hwg
+    simp only [Option.some.injEq] at hm
+    exact ⟨hwg, hm.symm⟩
+  · cases hm
+
+/-! ### how a run of the closing goroutine ends -/
+
+theorem runSteps_out {P : State → Prop} {s : Nat}
+    (hP : ∀ st st' o, P st → micro st s = some (st', o) → P st') :
+    ∀ n st, P st →
+      P (runSteps micro s n st).1 ∧
+        ((runSteps micro s n st).2 = .ok ∨
+          ∃ stp e, P stp ∧ micro stp s = some ((runSteps micro s n st).1, .closed e) ∧
+            (runSteps micro s n st).2 = .closed e) := by
+  intro n
+  induction n with
+  | zero => intro st h; exact ⟨h, Or.inl rfl⟩
+  | succ n ih =>
+    intro st h
+    unfold runSteps
+    cases hm : micro st s with
+    | none => exact ⟨h, Or.inl rfl⟩
+    | some r =>
+      obtain ⟨st', o⟩ := r
+      cases o with
+      | closed e => exact ⟨hP st st' _ h hm, Or.inr ⟨st, e, h, hm, rfl⟩⟩
+      | ok => exact ih st' (hP st st' _ h hm)
+      | refused => exact ih st' (hP st st' _ h hm)
+      | panic => exact ih st' (hP st st' _ h hm)
+
+/-- a step that returns from `Close`: the outcome is the error state at that moment, it is
+recorded, and it is an error whenever the rollback branch was taken or a listener failed -/
+theorem micro_closed {st st' : State} {s : Nat} {e : Bool} (h : Inv st)
+    (hm : micro st s = some (st', .closed e)) :
+    e = st'.hasErr s ∧ (st'.scp s).result = some e ∧ (st'.scp s).phase = .finished ∧
+      (st.scp s).phase = .signed ∧ ((st'.scp s).rolled = true → e = true) ∧
+      ((st'.scp s).lfail = true → e = true) := by
+  have m := micro_cases hm
+  generalize hro : Outcome.closed e = ro at m
+  cases m with
+  | resume _ _ _ _ _ => cases hro
+  | start _ _ _ => cases hro
+  | pick _ _ _ => cases hro
+  | signOff _ _ => cases hro
+  | ret hpk hph =>
+    cases hro
+    have herr : (st.ret s).hasErr s = st.hasErr s := by
+      simp [State.ret, State.hasErr, State.ctxOf]
+    refine ⟨herr.symm, by simp [State.ret], by simp [State.ret], hph, ?_, ?_⟩
+    · intro hr
+      have hr' : (st.scp s).rolled = true := by simpa [State.ret] using hr
+      have := h.x.rolledErr s hr'
+      simpa [State.hasErr, State.ctxOf] using this
+    · intro hr
+      have hr' : (st.scp s).lfail = true := by simpa [State.ret] using hr
+      have := h.x.lfailErr s hr'
+      simpa [State.hasErr, State.ctxOf] using this
+
+/-! ### the footprint of one scope's calls -/
+
+theorem TrigStep.ctx_other {st st' : State} {s : Nat} (ts : TrigStep st s st') :
+    ∀ x, x ≠ (st.scp s).ctx → st'.ctx x = st.ctx x := by
+  cases ts with
+  | parked st1 p e => intro x hx; exact e.ctx_other x hx
+  | ended st1 failed e _ => intro x hx; exact e.ctx_other x hx
+
+theorem microCase_ctx_other {st st' : State} {s : Nat} {o : Outcome} (m : MicroCase st s st' o) :
+    ∀ x, x ≠ (st.scp s).ctx → st'.ctx x = st.ctx x := by
+  cases m with
+  | resume p ev _ _ _ => exact (trigStep_resumeTrigger st s ev p).ctx_other
+  | start ev _ _ => exact (trigStep_startTrigger st s ev).ctx_other
+  | pick _ _ _ => intro _ _; rfl
+  | signOff _ _ => intro x _; show (st.signOffParent s).ctx x = _; rw [signOffParent_ctx]
+  | ret _ _ => intro _ _; rfl
+
+theorem runSteps_ctx_other {st : State} {s : Nat} (h : Inv st) (hs : s < st.nScopes) (n : Nat) :
+    ∀ x, x ≠ (st.scp s).ctx → (runSteps micro s n st).1.ctx x = st.ctx x :=
+  (runSteps_induct (P := fun y => Inv y ∧ s < y.nScopes ∧ (y.scp s).ctx = (st.scp s).ctx ∧
+      ∀ x, x ≠ (st.scp s).ctx → y.ctx x = st.ctx x)
+    (fun a b o ha hm => by
+      obtain ⟨hI, hlt, hc, hx⟩ := ha
+      have m := mono_micro hI hm
+      refine ⟨inv_micro hI hlt hm, by rw [microCase_nScopes (micro_cases hm)]; exact hlt,
+        (m.ctx s hlt).trans hc, ?_⟩
+      intro x hne
+      rw [microCase_ctx_other (micro_cases hm) x (by rw [hc]; exact hne)]
+      exact hx x hne)
+    n st ⟨h, hs, rfl, fun _ _ => rfl⟩).2.2.2
+
+/-- a call on scope `c`, or a step of its closing goroutine, touches no context but the one of `c` -/
+theorem exec_footprint {st st' : State} {a : Act} {o : Outcome} {c : Nat} (h : Inv st) (ha : a.onScope c)
     (he : exec st a = some (st', o)) : ∀ x, x ≠ (st.scp c).ctx → st'.ctx x = st.ctx x := by
   intro x hx
-  rcases ha with ha | ha | ha | ha | ha <;> subst ha
+  rcases ha with ha | ha | ha | ha | ha | ha <;> subst ha
   · rcases (exec_appErr_inv he).2 with ⟨h1, _, _⟩ | ⟨h1, _, _⟩ <;> subst h1
     · rfl
     · exact (evStep_appendError st c).ctx_other x hx
@@ -346,21 +533,19 @@ theorem exec_footprint {st st' : State} {a : Act} {o : Outcome} {c : Nat} (ha : 
     · exact ((evStep_setDone st c).trans (evStep_fire _ c .stop none)).ctx_other x hx
   · rcases (exec_close_inv he).2 with ⟨h1, _, _⟩ | ⟨h1, _, _⟩ <;> subst h1
     · rfl
-    · exact (evStep_beginClose st c).ctx_other x (by simpa using hx)
-  · obtain ⟨_, _, _, h1, _⟩ := exec_finish_inv he
-    subst h1
-    rw [finishClose_eq, signOff_ctx]
-    exact (evStep_closeEvents st c).ctx_other x hx
+    · have := (trigStep_startTrigger (st.modScp c fun y => { y with phase := .begun }) c .beforeClose).ctx_other x
+        (by simpa using hx)
+      exact this
+  · simp only [exec, execWith] at he
+    split at he
+    · rename_i hg
+      simp only [Option.some.injEq] at he
+      have := runSteps_ctx_other h hg.1 8 x hx
+      rw [he] at this; exact this
+    · cases he
+  · exact microCase_ctx_other (micro_cases (exec_step_inv he).2) x hx
 
 /-- a successful `AppendError` or `Kill` leaves the scope's context with an error and done -/
-theorem evStep_appendError_from_add (st : State) (s : Nat) : EvStep (st.addError s) (st.appendError s) s := by
-  unfold State.appendError
-  have h2 := evStep_trigger (st.addError s) s .error none
-  simp only []
-  split
-  · exact h2.trans (evStep_addError _ s)
-  · exact h2
-
 theorem fail_sets_error {st st' : State} {a : Act} {c : Nat} (ha : a = .appErr c ∨ a = .kill c)
     (he : exec st a = some (st', .ok)) :
     (st'.ctx (st.scp c).ctx).errors ≠ 0 ∧ (st'.ctx (st.scp c).ctx).done = true := by
@@ -377,32 +562,5 @@ theorem fail_sets_error {st st' : State} {a : Act} {c : Nat} (ha : a = .appErr c
   · rcases (exec_kill_inv he).2 with ⟨_, h2, _⟩ | ⟨h1, _, _⟩
     · cases h2
     · subst h1; exact key _ (evStep_fire _ c .kill none)
-
-theorem signOff_result (st2 : State) (s : Nat) (rb : Bool) :
-    ((st2.signOff s rb).scp s).result = some ((st2.signOff s rb).hasErr s) := by
-  unfold State.signOff
-  simp only []
-  rw [modScp_scp_same]
-  simp [State.hasErr, State.ctxOf]
-
-/-- what a finishing `Close` fires and returns -/
-theorem finish_outcome {st st' : State} {s : Nat} {o : Outcome} (h : Inv st)
-    (he : exec st (.finish s) = some (st', o)) :
-    st'.closeTrace s =
-        .beforeClose :: ((if st.hasErr s then rollbackTriple else commitTriple) ++ [.afterClose]) ∧
-      o = .closed (st'.hasErr s) ∧ (st'.scp s).result = some (st'.hasErr s) ∧
-      (st.hasErr s = true → st'.hasErr s = true) := by
-  obtain ⟨hs, hph, _, h1, h2⟩ := exec_finish_inv he
-  have m := mono_exec h he
-  subst h1
-  refine ⟨?_, h2, ?_, ?_⟩
-  · rw [finishClose_eq, signOff_closeTrace, closeTrace_closeEvents, h.order s, hph]
-    simp [closeSeq]
-  · rw [finishClose_eq]; exact signOff_result _ s _
-  · intro he0
-    simp only [State.hasErr, State.ctxOf, bne_iff_ne, ne_eq] at he0 ⊢
-    rw [m.ctx s hs]
-    have := m.errors (st.scp s).ctx
-    omega
 
 end Goat.Scope
